@@ -177,13 +177,13 @@ fn run_session(steps: &[Step], work: &Path, tmp: &Path) -> Result<Vec<String>, S
     for (i, st) in steps.iter().enumerate() {
         if st.detached {
             script.push_str(&format!("( {} ) >/dev/null 2>&1\n", st.snippet));
-            script.push_str(&format!("echo '@@MARK {i} detached'\n"));
+            script.push_str(&format!("builtin echo '@@MARK {i} detached'\n"));
         } else {
             script.push_str(&format!("{}\n{}\n", st.snippet, PROBE));
-            script.push_str(&format!("echo \"@@MARK {i} $?\"\n"));
+            script.push_str(&format!("builtin echo \"@@MARK {i} $?\"\n"));
         }
     }
-    script.push_str(&format!("{}\necho \"@@MARK final $?\"\n", PROBE));
+    script.push_str(&format!("{}\nbuiltin echo \"@@MARK final $?\"\n", PROBE));
     let out = std::process::Command::new(bash()).current_dir(work).env("TMPDIR", tmp).stdin(std::process::Stdio::piped()).stdout(std::process::Stdio::piped()).stderr(std::process::Stdio::null()).spawn().and_then(|mut c| {
         use std::io::Write;
         c.stdin.take().unwrap().write_all(script.as_bytes())?;
@@ -269,7 +269,7 @@ fn history_case(prop: &str, steps: Vec<Step>, root: &Path, idx: u64) -> CaseRec 
 /// must behave as they do in one session -- in particular scrut's own persist hook has to survive the option
 /// (`set -e`: a command of the hook that returns non-zero ends it before the state is written and replaces the
 /// exit code of the test case).
-const OPTIONS: [&str; 17] = ["unset OLDPWD; set -u", "OLDPWD=; set -u", "set -o posix", "set -a", "set -x", "set -e", "set -u", "set -o pipefail", "set -e -o pipefail", "set -eu", "set -f", "set -C", "set -E", "set -T", "shopt -s nullglob", "shopt -s failglob", "shopt -s extglob; set -e"];
+const OPTIONS: [&str; 19] = ["function exit { builtin exit 7; }", "function echo { builtin echo \"echo: $*\"; }; function printf { builtin printf 'printf\\n'; }", "unset OLDPWD; set -u", "OLDPWD=; set -u", "set -o posix", "set -a", "set -x", "set -e", "set -u", "set -o pipefail", "set -e -o pipefail", "set -eu", "set -f", "set -C", "set -E", "set -T", "shopt -s nullglob", "shopt -s failglob", "shopt -s extglob; set -e"];
 
 fn option_case(prop: &str, idx: u64, root: &Path) -> CaseRec {
     let opt = OPTIONS[(idx as usize) % OPTIONS.len()];
@@ -304,7 +304,7 @@ fn option_case(prop: &str, idx: u64, root: &Path) -> CaseRec {
     let mut script = String::from("shopt -s expand_aliases\n");
     let upto = if errexit { 5 } else { exprs.len() };
     for (i, e) in exprs.iter().take(upto).enumerate() {
-        script.push_str(&format!("{e}\necho \"@@MARK {i} $?\"\n"));
+        script.push_str(&format!("{e}\nbuiltin echo \"@@MARK {i} $?\"\n"));
     }
     let out = std::process::Command::new(bash()).current_dir(&wb).env("TMPDIR", &tmpb).stdin(std::process::Stdio::piped()).stdout(std::process::Stdio::piped()).stderr(std::process::Stdio::null()).spawn().and_then(|mut c| {
         use std::io::Write;
